@@ -162,6 +162,22 @@ func main() {
 					hs = append(hs, [2]string{name("Forwarded"), "by=" + nonce})
 				}
 			}
+			// HTTP/2: a regular `host` field next to :authority - equal to it (plainly legal) or naming another host
+			// (RFC 9113 8.3.1: a server SHOULD treat that as malformed; one that serves it must go by :authority).
+			// After seeded change C09-M, where the field overrode :authority.
+			hostField := ""
+			if c.Proto == "h2" {
+				switch i % 6 {
+				case 2:
+					hostField = c.Host
+				case 5:
+					hostField = "other-" + nonce + ".internal"
+				}
+				if hostField != "" {
+					hs = append(hs, [2]string{"host", hostField})
+					run.Add("h2_requests_with_a_host_field_next_to_authority", 1)
+				}
+			}
 			c.Headers = hs
 			tag := fmt.Sprintf("C09-%d-%d", run.Seed, i)
 			hs = append(hs, [2]string{name(rig.TagHeader), tag})
@@ -206,6 +222,10 @@ func main() {
 				}
 				resp, err := s.Do("GET", "/fwd", c.Host, hs, nil, 20*time.Second)
 				run.Eval(1)
+				if hostField != "" && hostField != c.Host && (err != nil || resp.Status != 200) {
+					run.Add("h2_requests_with_conflicting_host_field_refused", 1) // allowed (malformed per RFC 9113 8.3.1)
+					break
+				}
 				if err != nil || resp.Status != 200 {
 					run.Violation("request-failed", c, "request failed: %v %v", err, resp)
 					return
